@@ -26,7 +26,7 @@ RULE = ('Generated histories (<= 3 PRs, approvals and green builds biased so '
         'its targets or of none, and the C01 chain holds; then a fresh '
         'Bert-E on the same HOME gets the event again (rebuild-queues if it '
         'reports the queues out of order), CI is replayed by a deterministic '
-        'policy keyed by (branch name, tree id) until a fixpoint, and the '
+        'policy keyed by the tree id of the commit until a fixpoint, and the '
         'tree id of every destination branch must equal that of the '
         'uninterrupted run driven by the same policy. Non-trivial = a fault '
         'placed in a job that, uninterrupted, moved a destination branch or '
@@ -59,7 +59,7 @@ def fault_list(info):
 
 
 def body_factory(tier):
-    max_jobs = 2 if tier == 'quick' else 6
+    max_jobs = 2 if tier == 'quick' else 4
     max_faults = 5 if tier == 'quick' else 10 ** 6
 
     def body(data, hist):
@@ -135,7 +135,7 @@ def classes(h):
 
 
 def shard(ctx, i, acc):
-    n = 2 if ctx['tier'] == 'quick' else 8
+    n = 2 if ctx['tier'] == 'quick' else 3
     explore(ctx, i, acc, monitors, n, nontrivial=nontrivial, classes=classes,
             body=body_factory(ctx['tier']), inject=True, max_prs=3,
             params_kw={'extra_settings': {'required_peer_approvals': 1,
